@@ -37,7 +37,7 @@ func (g *tgen) term(depth int, allowVars bool) *G {
 	case n < 5:
 		return ga([]string{"a", "b", "[]", "f"}[r.intn(4)])
 	case n < 7:
-		return gi([]int64{0, 1, 2, -1, 1 << 40}[r.intn(5)])
+		return gi([]int64{0, 1, 2, -1, -2, 1 << 40, 1 << 62, -(1 << 62), math.MaxInt64, math.MinInt64, math.MinInt64 + 1}[r.intn(11)])
 	case n == 7:
 		return &G{K: 'f', S: []string{"1.0", "0.5", "2.5"}[r.intn(3)]}
 	case depth <= 0:
